@@ -767,6 +767,7 @@ class Report:
                 "analysed_root": self.repo.root if self.repo else None,
                 "files_analysed": self.repo.files if self.repo else [],
                 "functions_indexed": len(self.repo.all_funcs()) if self.repo else 0,
+                "functions_consulted": sorted(f.qual for f in self.repo.consulted) if self.repo else [],
                 "known_findings_observed": [
                     {"rule": v["rule"], "construct": v["construct"]} for v, _ in known
                 ],
